@@ -9,7 +9,7 @@ import common
 import xref
 from common import Stats
 
-RS = ["{}", "_", "%", "XX", "{", "@@"]
+RS = ["{}", "_", "%", "XX", "{", "@@", "§", "→", "«»", "é", "日本", "{}", "{}"]
 WORDS = ["a", "b c", "x  y", "file name.txt", "-n", "--", "é ü", "a{}b", "{}", "_", "%", "XX", "1 2 3", "tab\there", "q", "*", "$HOME"]
 
 
@@ -108,6 +108,15 @@ def worker(job):
             if i % 25 == 0:
                 lines, data = [], rng.choice([b"", b"\n", b"\n\n"])
                 mix = 0
+            oversized_at = None
+            if mix < 0.6 and i % 25 != 0 and rng.random() < 0.12 and any(Reff in a for a in initial):
+                # a line that cannot be passed at all (longer than the -s budget, or than the OS limit for one argument): an input
+                # error (status 1) - after the lines before it have been run, in order
+                oversized_at = rng.randint(0, len(lines))
+                big, sopt = rng.choice([(200000, []), (3000, ["-s", "2000"]), (140000, []), (70000, ["-s", "65536"])])
+                lines = lines[:oversized_at] + ["x" * big] + lines[oversized_at:]
+                data = "".join(l + "\n" for l in lines).encode()
+                optI = sopt + list(optI)
             if mix < 0.6:
                 opts = list(optI)
                 mode = "I"
@@ -134,8 +143,20 @@ def worker(job):
                 continue
             if not lines or all(l == "" for l in lines):
                 st.inc("empty_input_runs")
-            if mode == "I":
+            if oversized_at is not None:
+                st.inc("runs_with_a_line_too_long_to_pass")
+                detail["stdin"] = data[:200] + b"..." if len(data) > 200 else data
+                before = [ln for ln in lines[:oversized_at] if ln != ""]
+                exp = [[a.replace(Reff, ln).encode() for a in initial] for ln in before]
+                got = [argv for _, argv in r.invocations]
+                if got != exp or r.rc != 1 or not r.err.strip():
+                    st.violate("replace-mode", None, dict(detail, problems=["a line too long to pass: expected the %d lines before it to be "
+                               "run, then exit status 1 with a diagnostic" % len(exp)], expected=exp[:4], observed=[g[:3] for g in got[:4]],
+                               oversized_line_index=oversized_at), rp)
+            elif mode == "I":
                 st.inc("replace_mode_runs")
+                if not Reff.isascii():
+                    st.inc("replace_mode_runs_with_multibyte_R")
                 judge_replace(st, detail, rp, r, lines, initial, Reff)
             else:
                 st.inc("mode_%s_after_mixed_options" % mode)
@@ -166,8 +187,8 @@ def worker(job):
 
 def run(ctx):
     ctx.rule = ("0-8 input lines (internal blanks, containing R itself, empty lines interleaved, last line without newline), "
-                "initial argument lists with 0-3 occurrences of R per argument, R in {{}, _, %, XX, {, @@} spelled -I R / -IR / "
-                "--replace=R / -i / --replace, -I with -n 1, and every ordering of every subset of {-I, -n, -L}; "
+                "initial argument lists with 0-3 occurrences of R per argument, R in {{}, _, %, XX, {, @@, §, →, «», é, 日本} spelled -I R / -IR / "
+                "--replace=R / -i / --replace, -I with -n 1, a line too long to be passed (with/without -s) at every position, and every ordering of every subset of {-I, -n, -L}; "
                 "distinct = (options, initial arguments, input)")
     ctx.assumptions = ["lines free of quotes, backslashes and leading blanks (statement's own restriction); blank-only lines not used"]
     if ctx.replay:
@@ -179,5 +200,6 @@ def run(ctx):
     nw = common.NCPU
     n = ctx.scale(1600, 48000)
     ctx.pmap(worker, [(k, n // nw, ctx.seed) for k in range(nw)])
-    for key in ("empty_input_runs", "replace_mode_runs", "mode_n_after_mixed_options", "mode_L_after_mixed_options", "I_with_n1"):
+    for key in ("empty_input_runs", "replace_mode_runs", "mode_n_after_mixed_options", "mode_L_after_mixed_options", "I_with_n1",
+                "replace_mode_runs_with_multibyte_R", "runs_with_a_line_too_long_to_pass"):
         ctx.require(key, 3)
